@@ -126,6 +126,53 @@ class Facts:
                             c["sealed_default"] = True
 
     # ---- inventory ----
+    def helpers(self):
+        """{path: set of caller paths} of context-bound helpers: functions that cannot be named from outside the crate, are not
+        trait-impl methods or closures, have at least one crate-local call site and no loop.  The evaluator inlines them into
+        every caller, so they are analysed in their callers' contexts (a guard around the call protects the helper's body)."""
+        if getattr(self, "_helpers", None) is not None:
+            return self._helpers
+        import cfg as cfgmod
+        callers = {}
+        for f in self.fns:
+            for b, t in f.calls():
+                g = self.resolve_callee(t["callee"])
+                if g is not None:
+                    callers.setdefault(g.path, set()).add(f.path)
+        out = {}
+        for f in self.fns:
+            if f.kind not in ("Fn", "AssocFn") or f.d.get("exported", True) or f.d.get("impl_trait") or f.derived:
+                continue
+            if f.path not in callers or not f.d.get("mir"):
+                continue
+            try:
+                if cfgmod.Cfg(f).has_loop():
+                    continue
+            except Exception:
+                continue
+            out[f.path] = callers[f.path]
+        self._helpers = out
+        return out
+
+    def only_from_constructors(self, path):
+        """True if every transitive caller chain of the helper `path` starts in a constructor (`new`)"""
+        hs = self.helpers()
+        seen, work = set(), [path]
+        while work:
+            p = work.pop()
+            if p in seen:
+                continue
+            seen.add(p)
+            for c in hs.get(p, ()):  # callers
+                f = self.fn_by_path.get(c)
+                if f is None:
+                    return False
+                if c in hs:
+                    work.append(c)
+                elif f.name != "new":
+                    return False
+        return True
+
     def impls_of(self, trait_short, struct_short=None):
         out = []
         for i in self.impls:
